@@ -297,7 +297,7 @@ int main(int argc, char **argv)
 	if (!strcmp(kind, "xattr-writer")) { K.make = xw_make; K.op = xw_op; K.nops = 4; found = 1; }
 	static const struct { const char *n; char k; const char *opk[4]; } rks[] = {
 		{"meta-reader", 'm', {"mseek", NULL}}, {"dir-reader", 'd', {"inode", "readdir", "path", NULL}}, {"dir-reader-dot", 'e', {"inode", "readdir", "path", NULL}},
-		{"data-reader", 'D', {"read", "block", "frag", "stream"}}, {"xattr-reader", 'x', {"xattr", NULL}}, {"file", 'f', {NULL}} };
+		{"data-reader", 'D', {"read", "block", "frag", "stream"}}, {"xattr-reader", 'x', {"xattr", "xwalk", NULL}}, {"file", 'f', {NULL}} };
 	for (size_t i = 0; i < sizeof(rks) / sizeof(rks[0]); ++i) {
 		if (strcmp(kind, rks[i].n)) continue;
 		rk_kind = rks[i].k;
